@@ -169,6 +169,10 @@ fn owners_of(sem: Sem) -> Vec<&'static str> {
         }
         Sem::Unimpl => o.push("C07"),
     }
+    if sem != Sem::Unimpl {
+        // the charge of every implemented form is C20's business
+        o.push("C20");
+    }
     o
 }
 
@@ -380,11 +384,15 @@ pub fn units(prop: &'static str, tier: Tier) -> Vec<Unit> {
         let nv = victims.len() as u64;
         // ---- depth <= 2 (both layouts), depth 3 (L1 in quick, both in thorough)
         let depth3 = li == 0 || tier == Tier::Thorough;
-        let total = nv + ns * nv + if depth3 { ns * ns * nv } else { 0 };
+        // C20 owns every implemented form: its middle symbols come from the core alphabet
+        let mid_core_only = prop == "C20";
+        let nmid = if mid_core_only { sigma.iter().filter(|s| s.core).count() as u64 } else { ns };
+        let total = nv + ns * nv + if depth3 { ns * nmid * nv } else { 0 };
         let dom = format!(
-            "layout {}: every sequence of <= {} symbols over the {}-symbol collision alphabet (every row of the encoding table with shared registers / values / displacement bits / low address byte, stack and SP instances, interrupt request, boundary, host writes) whose last symbol is one of this property's {} forms = {} sequences, each stepped in lock step with the reference",
+            "layout {}: every sequence of <= {} symbols{} over the {}-symbol collision alphabet (every row of the encoding table with shared registers / values / displacement bits / low address byte, stack and SP instances, interrupt request, boundary, host writes) whose last symbol is one of this property's {} forms = {} sequences, each stepped in lock step with the reference",
             l.name,
             if depth3 { 3 } else { 2 },
+            if mid_core_only { " (middle symbol of a triple from the core alphabet)" } else { "" },
             ns,
             nv,
             total
@@ -394,6 +402,7 @@ pub fn units(prop: &'static str, tier: Tier) -> Vec<Unit> {
         let victims2 = victims.clone();
         units.push(Unit::new(&format!("xseq/{}", l.name), ns, &dom, move |ctx, chunk| {
             ctx.track_queue = true;
+            ctx.cycles_only = prop == "C20";
             let init = init_case(&l2);
             let a = &sigma2[chunk as usize];
             if chunk == 0 {
@@ -406,12 +415,16 @@ pub fn units(prop: &'static str, tier: Tier) -> Vec<Unit> {
             }
             if depth3 {
                 for x in sigma2.iter() {
+                    if mid_core_only && !x.core {
+                        continue;
+                    }
                     for &b in victims2.iter() {
                         run_symbols(ctx, &l2, &init, &[a, x, &sigma2[b]]);
                     }
                 }
             }
             ctx.track_queue = false;
+            ctx.cycles_only = false;
         }));
         // ---- depth 4 over the core alphabet (thorough)
         if tier == Tier::Thorough {
@@ -423,6 +436,7 @@ pub fn units(prop: &'static str, tier: Tier) -> Vec<Unit> {
             let victims3 = victims.clone();
             units.push(Unit::new(&format!("xseq4/{}", l.name), nc * nc, &dom, move |ctx, chunk| {
                 ctx.track_queue = true;
+                ctx.cycles_only = prop == "C20";
                 let init = init_case(&l3);
                 let a = &sigma3[core[(chunk / nc) as usize]];
                 let b = &sigma3[core[(chunk % nc) as usize]];
@@ -432,6 +446,7 @@ pub fn units(prop: &'static str, tier: Tier) -> Vec<Unit> {
                     }
                 }
                 ctx.track_queue = false;
+                ctx.cycles_only = false;
             }));
         }
     }
